@@ -69,7 +69,7 @@ func c12Doc(assign map[string]string, p map[string]string, rng *rand.Rand, zerod
 	step := [][2]any{
 		{"command", S("command")}, {"label", S("label")}, {"key", S("key")},
 		{"env", orderedJSON([][2]any{{S("envname"), S("envval")}, {"OTHER", "ov"}})},
-		{"plugins", []any{orderedJSON([][2]any{{S("pluginsrc"), orderedJSON([][2]any{{S("plugincfgkey"), S("plugincfgval")}, {"n", []any{S("plugincfgval"), 7, nil}}})}}), "./bare-plugin", orderedJSON([][2]any{{"./scalar-config", S("plugincfgval")}})}},
+		{"plugins", []any{orderedJSON([][2]any{{S("pluginsrc"), orderedJSON([][2]any{{S("plugincfgkey"), S("plugincfgval")}, {"n", []any{S("plugincfgval"), 7, nil}}})}}), S("pluginsrc") + "-bare", orderedJSON([][2]any{{"./scalar-config", S("plugincfgval")}})}},
 		{S("unkkey"), orderedJSON([][2]any{{"deep", []any{S("unkval"), orderedJSON([][2]any{{S("unkkey") + "2", S("unkval")}})}}})},
 		{"signature", orderedJSON([][2]any{{"algorithm", "EdDSA"}, {"signed_fields", []any{"command"}}, {"value", S("sigvalue")}})},
 	}
@@ -149,6 +149,9 @@ func c12Event(c obj) obj {
 		c12SelfCheck(toks, sp)
 		assign[cl] = sp
 		strs = append(strs, []any{sp, toks})
+		if cl == "pluginsrc" { // the same source once more as a plugin WITHOUT a config
+			strs = append(strs, []any{sp + "-bare", append(append([]any{}, toks...), obj{"t": "lit", "s": "-bare"})})
+		}
 		if cl == "unkkey" { // the nested second key
 			strs = append(strs, []any{sp + "2", append(append([]any{}, toks...), obj{"t": "lit", "s": "2"})})
 			if c["alias"] == true {
